@@ -5,8 +5,11 @@
    Numbers travel as the exact '%f' text: the six-decimal statement about
    floats is CPython's ('%f' % x has the shape f6_shape, float() inverts it up
    to six decimals) and is sampled by the harness.
-   PARTIAL: the induction through lists, dicts and whole grids (jparse_grid of
-   jdump_grid) is not proved; it is covered by the correspondence + search. *)
+   The induction through lists, dicts, nested grids and whole grids of either
+   version family (jparse_grid of jdump_grid) is C02_values / C02_full_grid /
+   C02_grid_any_version / C02_grid_2_0.
+   PARTIAL: what a number token and a date-time text denote (float(), iso8601,
+   pytz) are oracles of the tie. *)
 From Coq Require Import String List.
 Import ListNotations.
 From HS Require Import Base.Prelude Gen.JsonData Model.Value Model.Version Model.Json Proofs.PreludeP Proofs.JsonP Proofs.JsonGridP Proofs.JsonNestP Proofs.JsonReadP Proofs.JsonVerP.
